@@ -14,8 +14,9 @@
     `write_all` / `append_all` of the joined bytes outside the finding class `empty_lines_noop`
     (`classOf … = "-"`);
   * listings (Lemmas/RefineCList): both sides are strictly `pathLt`-increasing lists; Memfs selects by
-    entry FLAGS, the reference by node KIND — equal outside the class `listing_includes_links` (no link
-    strictly below the directory at the listed depth), unconditionally for `paths` / `all_paths`;
+    entry FLAGS and (since the repair of `listing_includes_links`) skips links in `dirs` / `files` /
+    `all_dirs` / `all_files`, the reference selects by node KIND — equal for all six helpers, with no
+    hypothesis about links;
   * symbolic `chmod_b` (Lemmas/RefineCChmod): the octal proof of Lemmas/RefineB/Chmod re-run with the
     per-entry target mode `applyExpr (kind) cs e.mode` (`Lemmas.mode_parsed`: what `sys::mode` computes
     for a well-formed expression; malformed = class `sym_malformed`); new fact: clauses only touch the
@@ -87,30 +88,6 @@ theorem resolve_entryAt {env : Env} {s : State} {p : Str} {a : FsPath} (h : reso
   | panic => rw [hw] at h; cases h
   | hang => rw [hw] at h; cases h
 
-/-- outside `listing_includes_links` no listed key is a link -/
-theorem noLink_of_class {env : Env} {s : State} {p : Str} {all : Bool} (h : hasLinkChild s env p all = false)
-    {a : FsPath} (ha : resolve env (absS s) p = .ok a) (k : FsPath) (e : Entry)
-    (he : alLookup k s.entries = some e) (hp : isProperPrefix a k = true)
-    (hd : all = true ∨ k.length = a.length + 1) : e.link = false := by
-  unfold hasLinkChild at h
-  rw [resolve_entryAt ha] at h
-  simp only at h
-  cases hl : e.link with
-  | false => rfl
-  | true =>
-    have : s.entries.any (fun kv => kv.2.link && isProperPrefix a kv.1 && (all || decide (kv.1.length = a.length + 1)))
-        = true := by
-      rw [List.any_eq_true]
-      refine ⟨(k, e), RefineB.alLookup_some_mem he, ?_⟩
-      simp only [hl, hp, Bool.and_self, Bool.true_and, Bool.or_eq_true, decide_eq_true_eq]
-      exact hd
-    rw [this] at h; cases h
-
-theorem class_listing {x : Bool} (h : (if x = true then "listing_includes_links" else "-") = "-") : x = false := by
-  cases x with
-  | false => rfl
-  | true => exact absurd h (by decide)
-
 theorem class_lines {x : Bool} (h : (if x = true then "empty_lines_noop" else "-") = "-") : x = false := by
   cases x with
   | false => rfl
@@ -134,10 +111,6 @@ theorem C01_refines_step_groupC (env : Env) (s : State) (op : Op) (hC : GroupC o
   have hSo : Snap.Sorted s.entries := h.1.2.2.1
   have hOk : RefineA.EntriesOk s := h.2.1
   have hF := RefineA.inv_facts hI
-  have hkd : ∀ (k : FsPath) (e : Entry), (decide ((absNode s k e).kind = Kind.dir) = true) ↔ kindOf e = .dir :=
-    fun _ _ => decide_eq_true_iff
-  have hkf : ∀ (k : FsPath) (e : Entry), (decide ((absNode s k e).kind = Kind.file) = true) ↔ kindOf e = .file :=
-    fun _ _ => decide_eq_true_iff
   cases op <;> try exact False.elim hC
   case chmodB p c => exact RefineC.chmodB_sym_refines env s p c hI hOk hc hC.1 hd r t' hs
   case readLines p => exact of_simA (RefineC.sim_readLines env s p hF hOk) hs
@@ -151,40 +124,33 @@ theorem C01_refines_step_groupC (env : Env) (s : State) (op : Op) (hC : GroupC o
       simp only [classOf, if_true] at hc
       exact absurd hc (by decide)
     exact of_simA (RefineC.sim_appendLine env s hF hOk p l hne) hs
-  case paths p =>
-    exact of_simA (RefineC.sim_listing env s p false false false _ hI hSo (fun h0 => by cases h0)
-      (fun a _ k e _ _ _ => by simp)) hs
-  case allPaths p =>
-    exact of_simA (RefineC.sim_listing env s p true false false _ hI hSo (fun _ => hd)
-      (fun a _ k e _ _ _ => by simp)) hs
-  case dirs p =>
-    have hnl := class_listing (x := hasLinkChild s env p false) (by simpa only [classOf] using hc)
-    refine of_simA (RefineC.sim_listing env s p false true false _ hI hSo (fun h0 => by cases h0)
-      (fun a ha k e he hp hdp => ?_)) hs
-    have hl := noLink_of_class hnl ha k e he hp hdp
-    rw [hkd, RefineA.kind_dir_iff]
-    simp [hl]
-  case allDirs p =>
-    have hnl := class_listing (x := hasLinkChild s env p true) (by simpa only [classOf] using hc)
-    refine of_simA (RefineC.sim_listing env s p true true false _ hI hSo (fun _ => hd)
-      (fun a ha k e he hp hdp => ?_)) hs
-    have hl := noLink_of_class hnl ha k e he hp hdp
-    rw [hkd, RefineA.kind_dir_iff]
-    simp [hl]
-  case files p =>
-    have hnl := class_listing (x := hasLinkChild s env p false) (by simpa only [classOf] using hc)
-    refine of_simA (RefineC.sim_listing env s p false false true _ hI hSo (fun h0 => by cases h0)
-      (fun a ha k e he hp hdp => ?_)) hs
-    have hl := noLink_of_class hnl ha k e he hp hdp
-    rw [hkf, RefineA.kind_file_iff (RefineA.entriesOk_lookup hOk he)]
-    simp [hl]
-  case allFiles p =>
-    have hnl := class_listing (x := hasLinkChild s env p true) (by simpa only [classOf] using hc)
-    refine of_simA (RefineC.sim_listing env s p true false true _ hI hSo (fun _ => hd)
-      (fun a ha k e he hp hdp => ?_)) hs
-    have hl := noLink_of_class hnl ha k e he hp hdp
-    rw [hkf, RefineA.kind_file_iff (RefineA.entriesOk_lookup hOk he)]
-    simp [hl]
+  case paths p => exact of_simA (RefineC.sim_paths env s p false hI hSo (fun h0 => by cases h0)) hs
+  case allPaths p => exact of_simA (RefineC.sim_paths env s p true hI hSo (fun _ => hd)) hs
+  case dirs p => exact of_simA (RefineC.sim_dirs env s p false hI hSo (fun h0 => by cases h0)) hs
+  case allDirs p => exact of_simA (RefineC.sim_dirs env s p true hI hSo (fun _ => hd)) hs
+  case files p => exact of_simA (RefineC.sim_files env s p false hI hSo hOk (fun h0 => by cases h0)) hs
+  case allFiles p => exact of_simA (RefineC.sim_files env s p true hI hSo hOk (fun _ => hd)) hs
+
+/-- the six listing helpers need no class hypothesis at all (the class `listing_includes_links` is
+    repaired; `classOf` is `"-"` for them on every state) -/
+theorem C01C_listing_class_trivial (env : Env) (s : State) (p : Str) :
+    classOf s env (.paths p) = "-" ∧ classOf s env (.dirs p) = "-" ∧ classOf s env (.files p) = "-" ∧
+    classOf s env (.allPaths p) = "-" ∧ classOf s env (.allDirs p) = "-" ∧ classOf s env (.allFiles p) = "-" :=
+  ⟨rfl, rfl, rfl, rfl, rfl, rfl⟩
+
+/-- **C01, listings**: from an `RInv` state, `paths` / `dirs` / `files` (and `all_paths` / `all_dirs` /
+    `all_files` when no key is `u64::MAX` components deep) return what the reference returns, whatever
+    links lie below the directory -/
+theorem C01C_listings_refine (env : Env) (s : State) (op : Op) (h : RInv s)
+    (hop : match op with
+      | .paths _ | .dirs _ | .files _ => True
+      | .allPaths _ | .allDirs _ | .allFiles _ => RefineB.DepthOk s
+      | _ => False) :
+    ∀ r t', specStep env (absS s) op = some (r, t') →
+      RefineB.ResMatch (step env s op).1 r ∧ (r ≠ .unspecified → RefineB.TEquiv (absS (step env s op).2) t') := by
+  cases op <;> first
+    | exact False.elim hop
+    | exact C01_refines_step_groupC env s _ trivial h rfl (by first | exact hop | trivial)
 
 /-! ### the wider alphabet: step, history -/
 
@@ -513,17 +479,23 @@ example : isOkStrs [S "x", S "y", S "z"] (specStep env0 (absS (run env0 Memfs.in
       (specStep env0 (absS (run env0 Memfs.init hist3)) (.allPaths (S "/"))) = true := by
   decide +kernel
 
-/-! ### the class hypotheses cannot be dropped -/
+/-! ### the repaired class, and the class hypotheses that cannot be dropped -/
 
 set_option maxRecDepth 100000 in
-/-- `files "/"` after `hist3`: the link `/l` carries the `file` flag of its target, Memfs lists it, the
-    reference (node kind `link`) does not — the class `listing_includes_links`, and only it, excludes
-    the call -/
-theorem C01C_listing_class_needed :
+/-- `files "/"` after `hist3` (formerly the witness of the class `listing_includes_links`): the link `/l`
+    carries the `file` flag of its target; Memfs now skips it, like the reference (node kind `link`).
+    `paths "/"` still lists it on both sides.  The call is inside the domain of the step theorem. -/
+theorem C01C_listing_links_repaired :
     RInv (run env0 Memfs.init hist3) ∧ DepthDom' (run env0 Memfs.init hist3) (.files (S "/")) ∧
-    classOf (run env0 Memfs.init hist3) env0 (.files (S "/")) = "listing_includes_links" ∧
-    (step env0 (run env0 Memfs.init hist3) (.files (S "/"))).1 = .ok (.paths [[S "l"]]) ∧
-    isOkPaths [] (specStep env0 (absS (run env0 Memfs.init hist3)) (.files (S "/"))) = true := by
+    classOf (run env0 Memfs.init hist3) env0 (.files (S "/")) = "-" ∧
+    (step env0 (run env0 Memfs.init hist3) (.files (S "/"))).1 = .ok (.paths []) ∧
+    isOkPaths [] (specStep env0 (absS (run env0 Memfs.init hist3)) (.files (S "/"))) = true ∧
+    (step env0 (run env0 Memfs.init hist3) (.allFiles (S "/"))).1 =
+      .ok (.paths [[S "a", S "b", S "g"], [S "a", S "f"]]) ∧
+    isOkPaths [[S "a", S "b", S "g"], [S "a", S "f"]]
+      (specStep env0 (absS (run env0 Memfs.init hist3)) (.allFiles (S "/"))) = true ∧
+    (step env0 (run env0 Memfs.init hist3) (.paths (S "/"))).1 = .ok (.paths [[S "a"], [S "l"]]) ∧
+    isOkPaths [[S "a"], [S "l"]] (specStep env0 (absS (run env0 Memfs.init hist3)) (.paths (S "/"))) = true := by
   decide +kernel
 
 set_option maxRecDepth 100000 in
@@ -543,16 +515,37 @@ theorem isOkPaths_elim {x : List FsPath} {o : Option (R Val × T)} (h : isOkPath
   · rename_i y t; exact ⟨t, by rw [eq_of_beq h]⟩
   · cases h
 
-/-- the step statement without the class hypothesis is false -/
+theorem hasFile_elim {k : FsPath} {d : File.Bytes} {o : Option (R Val × T)} (h : hasFile k d o = true) :
+    ∃ t, o = some (.ok .unit, t) ∧ (TreeFs.get t k).isSome = true := by
+  unfold hasFile at h
+  split at h
+  · rename_i t
+    refine ⟨t, rfl, ?_⟩
+    cases hg : TreeFs.get t k with
+    | none => rw [hg] at h; cases h
+    | some n => rfl
+  · cases h
+
+set_option maxRecDepth 100000 in
+theorem C01C_rinv_init : RInv Memfs.init := by decide +kernel
+
+/-- the step statement without the class hypothesis is false (witness: the class `empty_lines_noop`; the
+    former witness `files "/"` with a link below is repaired, see `C01C_listing_links_repaired`) -/
 theorem C01C_step_needs_class :
     ¬ (∀ (env : Env) (s : State) (op : Op), GroupC op → RInv s → DepthDomC s op →
-        ∀ r t', specStep env (absS s) op = some (r, t') → RefineB.ResMatch (step env s op).1 r) := by
+        ∀ r t', specStep env (absS s) op = some (r, t') →
+          RefineB.ResMatch (step env s op).1 r ∧
+            (r ≠ .unspecified → RefineB.TEquiv (absS (step env s op).2) t')) := by
   intro h
-  obtain ⟨h1, h2, _, h4, h5⟩ := C01C_listing_class_needed
-  obtain ⟨t', hs⟩ := isOkPaths_elim h5
-  have hm := h env0 _ (.files (S "/")) trivial h1 h2.2 _ t' hs
-  rw [h4] at hm
-  simp [RefineB.ResMatch] at hm
+  obtain ⟨_, h2, h3, h4⟩ := C01C_lines_class_needed
+  obtain ⟨t', hs, hg⟩ := hasFile_elim h3
+  have hm := (h env0 Memfs.init (.writeLines (S "/n") []) trivial C01C_rinv_init trivial _ t' hs).2
+    (by intro h0; cases h0)
+  rw [h2] at hm
+  have := hm.2 [S "n"]
+  rw [h4] at this
+  rw [← this] at hg
+  cases hg
 
 -- OUTSIDE `Refined'` (10 constructors of 53), and why:
 --   * `mkfile_m`, `entry`, `copy`, `copy_b`, `entries`, `hWrite hAppend hPut hFlush hDrop` (the file-handle
